@@ -19,8 +19,10 @@ def main(run):
                        "priced postings, equal time stamps, audit+uuid in 30% (metadata: Txn Set Checksum, Account Selector Checksum), transaction filter "
                        "in 25% (metadata: Filter), selectors none / exact / prefix / everything / nothing, equity account outside or inside the journal "
                        "or with unusual valid names; invalid names are rejected by the configuration and not compared); the implementation's export "
-                       "text is compared character by character with EquityText.print_equity of Equity.equity of the loaded transaction set, the "
-                       "metadata items being cut from the implementation's text; the text must also be read by Journal.parse_journal as exactly the "
+                       "text is compared character by character with EquityText.print_equity of Equity.equity of the loaded transaction set; the "
+                       "wording of the header comment lines is an input cut from the implementation's text (metadata items: as many items as the "
+                       "session's metadata has, + the account selector checksum in audit mode; the rest = warning lines), their place is the "
+                       "model's (metadata under every header, warning lines iff the sum is zero); the text must also be read by Journal.parse_journal as exactly the "
                        "model's transactions; non-trivial = non-empty export; distinct = distinct export texts")
     return run.finish(info)
 
